@@ -78,6 +78,11 @@ struct ObsInner {
 #[derive(Clone)]
 pub struct Obs(Rc<ObsInner>);
 
+thread_local! {
+  /// number of notifications the reference passed through observers in the current run
+  static EMITS: Cell<i64> = const { Cell::new(0) };
+}
+
 impl Obs {
   fn new(next: impl Fn(&P) + 'static, error: impl Fn(u32) + 'static, complete: impl Fn() + 'static) -> Obs {
     Obs(Rc::new(ObsInner {
@@ -92,6 +97,7 @@ impl Obs {
     self.0.alive.get()
   }
   fn next(&self, p: &P) {
+    EMITS.with(|e| e.set(e.get() + 1));
     if self.alive() {
       (self.0.next)(p)
     }
@@ -515,7 +521,7 @@ fn sub_src(env: &Rc<MEnv>, sid: usize, s: &Src, down: Obs, d: Disp) {
     }
     Src::FromIter(v) => {
       for i in v {
-        if !down.alive() {
+        if !down.alive() || !env.burn() {
           break;
         }
         down.next(&P::I(*i));
@@ -524,7 +530,7 @@ fn sub_src(env: &Rc<MEnv>, sid: usize, s: &Src, down: Obs, d: Disp) {
     }
     Src::Range(a, n) => {
       for i in *a..(*a + *n) {
-        if !down.alive() {
+        if !down.alive() || !env.burn() {
           break;
         }
         down.next(&P::I(i));
@@ -1465,6 +1471,8 @@ pub struct MResult {
   /// per recorder: did it end (terminal or unsubscribe) before the sentinel round
   pub ended: Vec<bool>,
   pub reactions_fired: Vec<(usize, usize)>,
+  /// fuel the reference burned (one unit per emission / subscription step): the size of the case
+  pub fuel_used: i64,
   /// after every action: number of live observers registered in every hot source
   pub subj_timeline: Vec<Vec<usize>>,
 }
@@ -1644,11 +1652,36 @@ fn m_subscribe(sh: &Rc<MShared>, k: usize) {
   sh.subs.borrow_mut()[k] = Some(d);
 }
 
+/// break Rc cycles (subscriptions hold observers that hold the shared state); also on the
+/// error paths, where whole unbounded pipelines would otherwise stay allocated
+fn cleanup(sh: &Rc<MShared>, env: &Rc<MEnv>) {
+  // once the error flag is set nothing runs any more: disposing cannot loop
+  if env.err.borrow().is_none() {
+    *env.err.borrow_mut() = Some(ModelErr::Unsupported("cleanup".into()));
+  }
+  let subs: Vec<Option<Disp>> = std::mem::take(&mut *sh.subs.borrow_mut());
+  for d in subs.into_iter().flatten() {
+    d.dispose(Cause::Unsub);
+  }
+  for h in &env.hots {
+    h.subs.borrow_mut().clear();
+  }
+  if let Some(conn) = &sh.conn {
+    conn.subs.borrow_mut().clear();
+    let d = conn.connection.borrow_mut().take();
+    if let Some(d) = d {
+      d.dispose(Cause::Unsub);
+    }
+  }
+  env.probes.borrow_mut().clear();
+}
+
 pub fn run_model(case: &Case, conv: Conv) -> Result<MResult, ModelErr> {
   run_model_opt(case, conv, true)
 }
 
 pub fn run_model_opt(case: &Case, conv: Conv, sentinel: bool) -> Result<MResult, ModelErr> {
+  EMITS.with(|e| e.set(0));
   let hots = case
     .hots
     .iter()
@@ -1730,6 +1763,7 @@ pub fn run_model_opt(case: &Case, conv: Conv, sentinel: bool) -> Result<MResult,
     subj_timeline.push(env.hots.iter().map(|h| h.subs.borrow().iter().filter(|o| o.alive()).count()).collect());
   }
   if let Some(e) = env.err.borrow().clone() {
+    cleanup(&sh, &env);
     return Err(e);
   }
   let ended: Vec<bool> = (0..nrec)
@@ -1744,6 +1778,7 @@ pub fn run_model_opt(case: &Case, conv: Conv, sentinel: bool) -> Result<MResult,
     }
   }
   if let Some(e) = env.err.borrow().clone() {
+    cleanup(&sh, &env);
     return Err(e);
   }
   let probes = env
@@ -1764,24 +1799,10 @@ pub fn run_model_opt(case: &Case, conv: Conv, sentinel: bool) -> Result<MResult,
   sc.sort();
   let mut fc: Vec<(usize, usize)> = env.factory_calls.borrow().iter().map(|(a, b)| (*a, *b)).collect();
   fc.sort();
-  // break Rc cycles (subscriptions hold observers that hold the shared state)
-  let subs: Vec<Option<Disp>> = std::mem::take(&mut *sh.subs.borrow_mut());
-  for d in subs.into_iter().flatten() {
-    d.dispose(Cause::Unsub);
-  }
-  for h in &env.hots {
-    h.subs.borrow_mut().clear();
-  }
-  if let Some(conn) = &sh.conn {
-    conn.subs.borrow_mut().clear();
-    let d = conn.connection.borrow_mut().take();
-    if let Some(d) = d {
-      d.dispose(Cause::Unsub);
-    }
-  }
-  env.probes.borrow_mut().clear();
+  cleanup(&sh, &env);
   let traces = sh.traces.borrow().clone();
   let tap_log = env.tap_log.borrow().clone();
   let fired = sh.fired.borrow().clone();
-  Ok(MResult { traces, sub_counts: sc, factory_calls: fc, tap_log, probes, ended, reactions_fired: fired, subj_timeline })
+  let fuel_used = (40_000 - env.fuel.get()) + EMITS.with(|e| e.get());
+  Ok(MResult { traces, sub_counts: sc, factory_calls: fc, tap_log, probes, ended, reactions_fired: fired, fuel_used, subj_timeline })
 }
